@@ -3,8 +3,8 @@
     [0, max_volume], 0 <= min_volume < max_volume, the history holds exactly the initial state and
     the composition has one 100 % component for precisely the non-empty wells.  Specifications that
     cannot be represented raise ValueError.
-    Statements only; proofs in Proofs/CtorProofs.v. *)
-From Robo Require Import Prelude Str Wells Utils Labware Invariants CtorProofs.
+    Statements only; proofs in Proofs/CtorProofs.v and Proofs/CtorLimitsProofs.v. *)
+From Robo Require Import Prelude Str Wells Utils Labware Invariants CtorProofs CtorLimitsProofs.
 
 (* ------------------------------------------------------------------ definitions used in the statements *)
 
@@ -298,10 +298,20 @@ Theorem C20_reject_vrows_invalid : forall a p,
 Proof. exact reject_vrows_invalid. Qed.
 Print Assumptions C20_reject_vrows_invalid.
 
-(** NaN or infinite limits *)
+(** NaN or infinite limits, for exactly the combinations that the LIBRARY rejects
+      if min_volume is None or not min_volume >= 0:          raise ValueError
+      if max_volume is None or not max_volume > min_volume:  raise ValueError
+    i.e. min_volume in {NaN, +inf, -inf} (+inf passes the first test and fails the second for every
+    max_volume) or max_volume in {NaN, -inf}.
+    NOT covered: [max_volume = +inf] with a finite [min_volume >= 0]. The library ACCEPTS it
+    ([Labware('p',2,3,min_volume=0,max_volume=float('inf'))] works, and [add('A01', inf)] then leaves [inf]
+    in the well), the model answers [Err EValue] (it rejects every non-finite limit). That configuration is
+    OUTSIDE the model: the correspondence harness never generates it and no theorem is claimed for it - in
+    particular "finite, <= max_volume" (C02) does not transfer to a labware built with an infinite max_volume. *)
 Theorem C20_reject_limits_not_finite : forall a,
-  xfinite (a_min a) = None \/ xfinite (a_max a) = None -> mk_labware a = Err EValue.
-Proof. exact reject_limits_not_finite. Qed.
+  a_min a = XNaN \/ a_min a = XPInf \/ a_min a = XNInf \/ a_max a = XNaN \/ a_max a = XNInf ->
+  mk_labware a = Err EValue.
+Proof. exact reject_limits_lib. Qed.
 Print Assumptions C20_reject_limits_not_finite.
 
 Theorem C20_reject_min_negative : forall a lo,
@@ -392,11 +402,13 @@ Theorem C20_reject_trough_named_empty : forall a z c s v,
 Proof. exact treject_named_empty. Qed.
 Print Assumptions C20_reject_trough_named_empty.
 
+(** limits of a trough: same restriction as C20_reject_limits_not_finite ([max_volume = +inf] with a finite
+    [min_volume >= 0] is accepted by the library and is outside the model; nothing is claimed for it) *)
 Theorem C20_reject_trough_limits : forall a,
-  xfinite (t_min a) = None \/ xfinite (t_max a) = None \/
+  t_min a = XNaN \/ t_min a = XPInf \/ t_min a = XNInf \/ t_max a = XNaN \/ t_max a = XNInf \/
   (exists lo hi, t_min a = XQ lo /\ t_max a = XQ hi /\ ((lo < 0)%Q \/ (hi <= lo)%Q)) ->
   mk_trough a = Err EValue.
-Proof. exact treject_limits. Qed.
+Proof. exact treject_limits_lib. Qed.
 Print Assumptions C20_reject_trough_limits.
 
 Theorem C20_reject_trough_bad_volume : forall a x,
